@@ -2,6 +2,7 @@
 from __future__ import annotations
 
 import json
+import re
 
 import cgroup
 import pipeline as P
@@ -54,6 +55,8 @@ THEOREMS = [
     "FaxVerif.C03.width",
     "FaxVerif.C03.label_mismatch_refused",
     "FaxVerif.C03.column_shapes",
+    "FaxVerif.C03.declared_type_kept",
+    "FaxVerif.C03.fn_is_declared_floating",
     "FaxVerif.C03.neg_bool_counterexample",
     "FaxVerif.C03.not_is_bool_of_a_number",
     "FaxVerif.C03.ite_bool_counterexample",
@@ -63,6 +66,11 @@ RULE = (
     "ResultTTree(source, names, tree, file) with random names / tree names and, in a separate refusal stream, a wrong number of names; "
     "plus a deterministic stream with one column per typing rule and operand-kind combination (conditional with integer arms, int/int "
     "division, float+double both ways, Sum/Min/Max/First/Aggregate per element kind, vectors and vectors of vectors), element level and event level; "
+    "the data model of every C03 query declares, through the query's own metadata, methods with const-qualified / multi-word / short-named "
+    "return types (const short, unsigned int, const size_t, long, const char, const float) and four user C++ functions with different return "
+    "types (float / double): deterministic rule columns and a random stream (60 / 600 cases) use them as scalar, vector and vector-of-vector "
+    "columns, several functions side by side; explicit labels and tree names also from pools with ? \" \\ blank / ' (the booked names are "
+    "compared after decoding them as C++ string literals; with a label that is not an identifier only names, tree and descriptor are judged); "
     "three backends. The expected column names and C++ types of every case come from the Lean typing model (finalColumns / "
     "finalColumnsLabeled of Linq/Typing.lean, proved sound for the reference semantics); tools/qtypes.py is only cross-checked against it. "
     "Checked on the implementation's output: decidable SchemaOk (names in order, own storage, declared once with the "
@@ -73,7 +81,9 @@ RULE = (
 TRUSTED_BASE = [
     "lean/FaxVerif/Linq/Typing.lean typeOf / finalColumns: the property's typing rules as an executable Lean model (sound for Linq.denote by "
     "C03.type_soundness / C03.columns_sound), given the declared kinds of the synthetic data model read from the metadata the translator receives",
-    "tools/cparse.py parse of booking lines and class declarations",
+    "tools/cparse.py parse of booking lines and class declarations (tools/props/c03.py reads class members with a multi-word type and, for "
+    "labels that are not identifiers, the Branch lines' first argument itself: cparse_class_decl_multiword, booked_names_lenient)",
+    "Linq.declTy: which column type a declared C++ return type text denotes (a top-level const is dropped, other arithmetic types are kept by name)",
 ]
 ASSUMPTIONS = ["the runner delivers the file the job writes under the name ANALYSIS.root (C16 covers the runner)"]
 LEVEL_TEXT = (
@@ -101,12 +111,79 @@ LEVEL_NOTE = (
     "counterexample outside the generated stream: -b (bool operand) is booked bool, a conditional with boolean arms is "
     "booked double (neg_bool_/ite_bool_counterexample; `not` of a number is bool in the model and, since fix ea7911a, in the translator: "
     "not_is_bool_of_a_number, exercised by the typing-rules stream); distinct names need distinct dict keys (final_names_distinct_partial). "
+    "User C++ functions are typed only when declared to return float or double (denote gives every function a floating value: "
+    "fn_is_declared_floating). A label that is not a C++ identifier makes the storage variable's name (label ++ index) not an identifier "
+    "either: such cases are judged on the decoded names, the tree and the descriptor only (counted in the distribution). "
     "Known: unique_name = name ++ index is not injective (column x1 at counter 0 vs column x at counter 10)."
 )
 TECHNIQUE = "Lean 4 theorems on the translator model and on a typing model of the query language (type soundness) + decidable schema predicate (Lean) evaluated on the implementation's output against the typing model's columns"
 DESIGN_REF = "DESIGN.md §4 C03"
 
 PREFIX = {"atlas": "atlas_xaod", "cms_aod": "cms_aod", "cms_miniaod": "cms_miniaod"}
+
+
+# ---------------------------------------------------------------- the data model of C03's queries
+# qgen's synthetic model plus, declared through the query's own metadata (like qgen's `vpf`):
+#  * methods whose DECLARED return type is const-qualified / multi-word / short-named (the column must have the value type);
+#  * several user C++ functions with DIFFERENT return types (each column must carry its own function's type). The last
+#    declared one returns float, the others double: a mix-up between them shows in the booked type.
+DECLARED = {"cs": "const short", "ui": "unsigned int", "sz": "const size_t", "lg": "long", "ch": "const char", "cf": "const float"}
+USERFNS = [
+    {"metadata_type": "add_cpp_function", "name": "upf", "include_files": [], "arguments": ["d"], "code": ["auto result = d + 1.0;"], "return_type": "double"},
+    {"metadata_type": "add_cpp_function", "name": "xpf", "include_files": [], "arguments": ["d", "i"], "code": ["auto result = d - i;"], "return_type": "float"},
+    {"metadata_type": "add_cpp_function", "name": "wpf", "include_files": [], "arguments": ["d"], "code": ["auto result = d * 0.5;"], "return_type": "float"},
+]
+_MD = {}
+
+
+def metadata(backend):
+    if backend not in _MD:
+        mds = list(qgen.metadata(backend))
+        for c in qgen.COLLS:
+            et = qgen.elem_type(backend, c)
+            for m, rt in DECLARED.items():
+                mds.append({"metadata_type": "add_method_type_info", "type_string": et, "method_name": m, "return_type": rt})
+        _MD[backend] = mds + USERFNS
+    return _MD[backend]
+
+
+def uses_extras(q) -> bool:
+    """the query mentions a method / function that only C03's data model declares (tools/qtypes.py does not know them)"""
+    if isinstance(q, dict):
+        if (q.get("k") == "meth" and q.get("n") in DECLARED) or (q.get("k") == "fn" and q.get("f") in ("upf", "xpf", "wpf")):
+            return True
+        return any(uses_extras(v) for v in q.values())
+    if isinstance(q, list):
+        return any(uses_extras(v) for v in q)
+    return False
+
+
+def decorate_events(events):
+    """every object of the events also answers the DECLARED methods (values derived from its own attributes: no random draw)"""
+    def obj(v):
+        if not isinstance(v, dict):
+            return
+        if "v" in v:
+            for x in v["v"]:
+                obj(x)
+        if "o" in v:
+            a = v["o"]["a"]
+            have = {kv["k"]: kv["v"] for kv in a}
+            if "i" in have and "cs" not in have:
+                i, j = have["i"].get("i", 0), have.get("j", {}).get("i", 0)
+                a += [{"k": "cs", "v": {"i": i}}, {"k": "ui", "v": {"i": j}}, {"k": "sz", "v": {"i": j + 1}}, {"k": "lg", "v": {"i": i * 1000}},
+                      {"k": "ch", "v": {"i": 65 + j}}, {"k": "cf", "v": have.get("f", {"d": "0.5"})}]
+            for kv in a:
+                obj(kv["v"])
+    for ev in events:
+        for b in ev.get("banks", []):
+            obj(b.get("content"))
+    return events
+
+
+ODD_LABELS = ['p?t', 'a"b', 'c\\d', 'e f', 'g/h', '??/x', 'q\\?', '"', 'x\\"y', "it's"]
+ODD_TREES = ['tr?ee', 't"q', 'b\\s', 'a b/c', '??/', 'n\\"m', 'w\\?', '"']
+IDENT = re.compile(r"^[A-Za-z_]\w*$")
 
 
 class SCase(cgroup.Case):
@@ -125,9 +202,15 @@ def as_scase(c, j=None):
     if not isinstance(c, SCase):
         c.__class__ = SCase
         c.explicit = None
+        decorate_events(c.events)
     if j and j.get("explicit"):
         c.explicit = (list(j["explicit"][0]), j["explicit"][1], bool(j["explicit"][2]))
     return c
+
+
+def odd_labels(c) -> bool:
+    """a label that is not an identifier: the storage variable's name is derived from it (see `judge`)"""
+    return bool(c.explicit) and any(not IDENT.match(n) for n in c.explicit[0])
 
 
 def gen(ctx, i):
@@ -142,7 +225,15 @@ def gen(ctx, i):
         mismatch = kind < 2
         if mismatch:
             newnames = newnames + ["extra"] if kind == 0 else newnames[:-1]  # (a bare value with NO label at all included)
-        c.explicit = (newnames, ctx.rng.choice(["mytree", "t", "analysis_tree", "trees/nominal", "a b", "T-1.x", "/t"]), mismatch)
+        tree = ctx.rng.choice(["mytree", "t", "analysis_tree", "trees/nominal", "a b", "T-1.x", "/t"])
+        # names that need escaping inside a C++ string literal (? " \ blank /): chosen by the case's index, not by a random
+        # draw, so that the random stream of queries is the same with and without them
+        block = i // 20
+        if block % 2 == 1 and kind in (1, 3, 5):
+            newnames = [ODD_LABELS[(block + 3 * k + kind) % len(ODD_LABELS)] + str(k) for k in range(len(newnames))]
+        if block % 3 != 0 and kind in (2, 3):
+            tree = ODD_TREES[(block + kind) % len(ODD_TREES)]
+        c.explicit = (newnames, tree, mismatch)
         # AsROOTTTree understands a sequence of tuples or of single items (README), not of dicts
         if c.query["f"]["k"] in ("dict", "list"):
             c.query = {**c.query, "f": {"k": "tuple", "es": c.query["f"]["es"]}}
@@ -151,7 +242,7 @@ def gen(ctx, i):
 
 def translate_case(c):
     cgroup.set_counter(c)
-    mds = qgen.metadata(c.backend)
+    mds = metadata(c.backend)
     src = qgen.render_functional(c.query, mds)
     if c.explicit:
         names, tree, _ = c.explicit
@@ -159,7 +250,41 @@ def translate_case(c):
     c.result = P.translate_functional(c.backend, src)
     if c.result["ok"]:
         c.package = qgen.package_json(c.result)
+        # class declarations with a multi-word type (`unsigned int _col02;`) are beyond tools/cparse.py's pattern
+        decl = cparse_class_decl_multiword(c.result["class_decl"])
+        c.package["class_vars"] = [d if cv["n"] == "?" else cv for cv, d in zip(c.package["class_vars"], decl)] if len(decl) == len(c.package["class_vars"]) else c.package["class_vars"]
     return c
+
+
+_DECL_RE = re.compile(r"^(?P<t>\S(?:.*\S)?)\s+(?P<n>[A-Za-z_]\w*);$")
+
+
+def cparse_class_decl_multiword(lines):
+    """`<type words> <identifier>;` per class member, the type's blanks normalised"""
+    res = []
+    for x in lines:
+        s = (x if isinstance(x, str) else " ".join(x)).strip()
+        m = _DECL_RE.match(s)
+        res.append({"t": " ".join(m.group("t").split()), "n": m.group("n")} if m else {"t": "?", "n": "?"})
+    return res
+
+
+_BRANCH_LENIENT = re.compile(r'^myTree->Branch\((?P<n>"(?:[^"\\]|\\.)*"), &(?P<v>.*)\);$')
+
+
+def booked_names_lenient(book_lines):
+    """the first argument of every `myTree->Branch(` line of the booking code, read as a C++ string literal, in order; None
+    for a line whose first argument is not one well-formed literal followed by `, &<storage>);`"""
+    import cparse
+
+    out = []
+    for raw in book_lines:
+        l = raw.strip()
+        if not l.startswith("myTree->Branch"):
+            continue
+        m = _BRANCH_LENIENT.match(l)
+        out.append(cparse.unescape_c(m.group("n")) if m else None)
+    return out
 
 
 # ---------------------------------------------------------------- the Lean typing model as the oracle
@@ -168,22 +293,21 @@ _SIG = {}
 
 
 def _ty(t: str, known) -> str:
-    """a C++ type of the metadata in the driver's notation"""
+    """a C++ type of the metadata in the driver's notation; what column type a declared scalar text denotes is decided
+    by the Lean model (`Linq.declTy`), the text is handed over as it stands"""
     t = t.strip()
-    if t in ("int", "float", "double", "bool"):
-        return t
     if t.startswith("std::vector<") and t.endswith(">"):
         return "vec:" + _ty(t[len("std::vector<"):-1], known)
     if t in known:
         return "obj:" + t
-    raise ValueError(f"metadata type {t!r} has no counterpart in the typing model")
+    return "decl:" + t
 
 
 def sig(backend):
     """The declared kinds of the data model, read from the very metadata the translator is given (qgen.metadata):
     collection accessor -> element class, class -> method -> declared return type."""
     if backend not in _SIG:
-        mds = qgen.metadata(backend)
+        mds = metadata(backend)
         colls = [{"name": d["name"], "cls": d["element_type"]} for d in mds if d["metadata_type"] == qgen.MDTYPE[backend]]
         known = {c["cls"] for c in colls}
         classes = {k: [] for k in sorted(known)}
@@ -192,7 +316,8 @@ def sig(backend):
                 continue
             t = d.get("return_type_collection") or d["return_type"]
             classes.setdefault(d["type_string"], []).append({"name": d["method_name"], "type": _ty(t, known)})
-        _SIG[backend] = {"colls": colls, "classes": [{"cls": k, "methods": v} for k, v in classes.items()]}
+        fns = [{"name": d["name"], "type": _ty(d["return_type"], known)} for d in mds if d["metadata_type"] == "add_cpp_function"]
+        _SIG[backend] = {"colls": colls, "classes": [{"cls": k, "methods": v} for k, v in classes.items()], "fns": fns}
     return _SIG[backend]
 
 
@@ -225,6 +350,8 @@ def attach_typing(ctx, cases):
             continue
         # 2 cross-check: tools/qtypes.py (the former oracle) and the generator's own column names
         try:
+            if uses_extras(c.query):
+                raise KeyError("methods / functions of C03's own data model")
             qn, qt = qtypes.columns(c.query)
             if (qn, qt) != (d["names"], d["types"]):
                 ctx.disagreement("C03 typing model vs tools/qtypes.py", ident, {"names": d["names"], "types": d["types"]}, {"names": qn, "types": qt})
@@ -254,7 +381,7 @@ def attach_typing(ctx, cases):
 
 def request(c):
     r = cgroup.request(c, with_query=False)
-    if c.expected is not None:
+    if c.expected is not None and not odd_labels(c):
         names, types, tree = c.expected
         r["schema"] = {"names": names, "types": types, "fill": tree if c.backend == "atlas" else ""}
     return r
@@ -282,6 +409,15 @@ def judge(c):
         return {"what": "the returned descriptor does not name the tree / file the job writes", "observed": {"descriptor": [r["treename"], r["filename"]], "expected": [tree, "ANALYSIS.root"]}}
     if c.package["book_trees"] and set(c.package["book_trees"]) != {tree}:
         return {"what": "the booked tree is not the tree named by the query / the descriptor", "observed": {"booked": c.package["book_trees"], "expected": tree}}
+    if odd_labels(c):
+        # The storage variable is named after the label (`_p?t2` for the label `p?t`): with a label that is not an identifier
+        # the declaration and the Branch line are not C++ and tools/cparse.py does not read them. What IS decided here: the
+        # booked names, decoded as C++ string literals, are the labels in order (and, above, the tree and the descriptor).
+        got = booked_names_lenient(r["book"])
+        if got != list(names):
+            return {"what": "the booked column names (the Branch lines' string literals, decoded) are not the labels given to ResultTTree, in order",
+                    "observed": {"labels": names, "decoded": got, "book": r["book"]}}
+        return None
     if a.get("schema_ok") is not True:
         return {"what": "the output tree's schema differs from the query's final shape (names in order / own storage / declared type / variables written / fill target)",
                 "observed": {"expected_names": names, "expected_types": types, "branches": c.package["branches"], "class_vars": c.package["class_vars"], "body": r["query"]}}
@@ -315,6 +451,10 @@ class Prop(CompilerProp):
 
 
 def after(ctx, c):
+    if odd_labels(c) and c.result and c.result.get("ok"):
+        ctx.count("odd-labels:judged on the decoded Branch literals, tree and descriptor (storage variable named after the label is not an identifier)")
+    if c.explicit and not IDENT.match(c.explicit[1].replace("/", "_")):
+        ctx.count("odd-tree-name")
     ctx.count("terminal:" + ("explicit-mismatch" if c.explicit and c.explicit[2] else "explicit" if c.explicit else c.query["f"]["k"] if c.query["f"]["k"] in ("tuple", "list", "dict") else "bare"))
     for t in (c.expected or ([], [], ""))[1]:
         ctx.count("column-type:" + t)
@@ -406,6 +546,34 @@ def rule_exprs():
         ("seq:double*float", SEL(J("vs"), "v", B("*", V("v"), J("f")))),
         ("seq:if", kids(IF(K("b"), K("i"), K("j")))),
         ("seq:where", SEL(WH(J("kids"), "k", C(">", K("i"), I(0))), "k", B("/", K("i"), I(2)))),
+        # declared return types that are const-qualified / multi-word / short-named: the column has the value type
+        ("decl:const short", J("cs")),
+        ("decl:unsigned int", J("ui")),
+        ("decl:const size_t", J("sz")),
+        ("decl:long", J("lg")),
+        ("decl:const char", J("ch")),
+        ("decl:const float", J("cf")),
+        ("cmp:short,int", C(">", J("cs"), I(1))),
+        ("not:unsigned", {"k": "not", "a": J("ui")}),
+        ("if:const float,double", IF(C(">", J("sz"), I(1)), J("cf"), J("d"))),
+        ("+:const float,int", B("+", J("cf"), J("i"))),
+        ("First:size_t", T("First", kids(K("sz")))),
+        ("Count:where char", T("Count", WH(J("kids"), "k", C(">", K("ch"), I(65))))),
+        # user C++ functions: every call has its OWN function's declared return type
+        ("userfn:float", {"k": "fn", "f": "wpf", "args": [J("d")]}),
+        ("userfn:double1", {"k": "fn", "f": "upf", "args": [J("g")]}),
+        ("userfn:float2", {"k": "fn", "f": "xpf", "args": [J("d"), J("i")]}),
+        ("userfn:float+double", B("+", {"k": "fn", "f": "wpf", "args": [J("d")]}, {"k": "fn", "f": "vpf", "args": [J("d"), J("j")]})),
+        ("userfn:float*float", B("*", {"k": "fn", "f": "wpf", "args": [J("f")]}, {"k": "fn", "f": "xpf", "args": [J("d"), I(1)]})),
+        ("seq:short", kids(K("cs"))),
+        ("seq:unsigned int", kids(K("ui"))),
+        ("seq:size_t", kids(K("sz"))),
+        ("seq:char", kids(K("ch"))),
+        ("seq:userfn float", kids({"k": "fn", "f": "wpf", "args": [K("d")]})),
+        ("seq:userfn double", kids({"k": "fn", "f": "upf", "args": [K("d")]})),
+        ("seqseq:long", kids(SEL(K("kids"), "k2", M(V("k2"), "lg")))),
+        ("seqseq:unsigned int", kids(SEL(K("kids"), "k2", M(V("k2"), "ui")))),
+        ("seqseq:userfn float", kids(SEL(K("vs"), "v", {"k": "fn", "f": "xpf", "args": [V("v"), K("i")]}))),
         # (vectors of vectors are columns of event-level rows only: `kids` stands for the event's collection there)
         ("seqseq:double", kids(K("vs"))),
         ("seqseq:double+float", kids(SEL(K("vs"), "v", B("+", V("v"), K("f"))))),
@@ -466,7 +634,93 @@ def rule_cases():
     return cases
 
 
-_P = Prop(ID, gen, judge, 240, 2400, with_query=False, after=after, nontrivial=nontrivial)
+# ---------------------------------------------------------------- random queries over the DECLARED methods and the user functions
+
+
+def gen_declared(rng, i):
+    """Columns made of the methods with declared (const / multi-word / short-named) return types and of the user C++ functions
+    (several per query, so that two functions of different return types sit side by side), as scalars of element-level rows, as
+    vectors and vectors of vectors of event-level rows; every terminal form, explicit labels and tree names from the odd pools."""
+    V = lambda n: {"k": "var", "n": n}
+    M = lambda o, n: {"k": "meth", "o": o, "n": n}
+    I = lambda v: {"k": "int", "v": v}
+    FN = lambda f, *a: {"k": "fn", "f": f, "args": list(a)}
+    backend = P.BACKENDS[i % 3]
+    cname, bank = rng.choice([("As", "ba"), ("As", "ba2"), ("Bs", "bb")])
+    coll = {"k": "coll", "e": V("e"), "c": cname, "bank": bank}
+
+    def num(v):  # a double-ish argument
+        return rng.choice([M(V(v), "d"), M(V(v), "g"), M(V(v), "f"), M(V(v), "cf"), {"k": "bin", "op": "*", "a": M(V(v), "d"), "b": I(2)}])
+
+    def atom(v):
+        k = rng.choice(["decl"] * 4 + ["fn"] * 4 + ["fn2", "cmp", "not", "if", "first", "count", "plain"])
+        if k == "decl":
+            return M(V(v), rng.choice(list(DECLARED)))
+        if k == "fn":
+            f = rng.choice(["wpf", "upf", "xpf", "vpf"])
+            return FN(f, num(v)) if f in ("wpf", "upf") else FN(f, num(v), M(V(v), rng.choice(["i", "j"])))
+        if k == "fn2":
+            f, g = rng.sample(["wpf", "upf", "xpf", "vpf"], 2)
+            call = lambda h: FN(h, num(v)) if h in ("wpf", "upf") else FN(h, num(v), M(V(v), "i"))
+            return {"k": "bin", "op": rng.choice(["+", "-", "*"]), "a": call(f), "b": call(g)}
+        if k == "cmp":
+            return {"k": "cmp", "op": rng.choice(["<", ">", ">=", "=="]), "a": M(V(v), rng.choice(list(DECLARED))), "b": I(rng.choice([0, 1, 2, 66]))}
+        if k == "not":
+            return {"k": "not", "a": M(V(v), rng.choice(["ui", "cs", "sz", "b"]))}
+        if k == "if":
+            return {"k": "if", "c": {"k": "cmp", "op": ">", "a": M(V(v), rng.choice(["sz", "ch", "i"])), "b": I(1)}, "a": M(V(v), "cf"), "b": FN("wpf", num(v))}
+        if k == "first":
+            return {"k": "First", "s": {"k": "Select", "s": M(V(v), "kids"), "x": v + "k", "f": M(V(v + "k"), rng.choice(list(DECLARED)))}}
+        if k == "count":
+            return {"k": "Count", "s": {"k": "Where", "s": M(V(v), "kids"), "x": v + "k", "f": {"k": "cmp", "op": ">", "a": M(V(v + "k"), rng.choice(["cs", "lg", "ch"])), "b": I(0)}}}
+        return M(V(v), rng.choice(["i", "f", "d", "b"]))
+
+    n = rng.randint(1, 4)
+    if rng.random() < 0.5:  # element-level rows of scalars (and vectors over the element's own children)
+        cols = [atom("j") for _ in range(n)]
+        if rng.random() < 0.3:
+            cols[rng.randrange(n)] = {"k": "Select", "s": M(V("j"), "kids"), "x": "k", "f": atom("k")}
+        src, x, form = {"k": "SelectMany", "s": {"k": "ds"}, "x": "e", "f": coll}, "j", "selectmany"
+    else:  # event-level rows: vectors, vectors of vectors, a count
+        cols = []
+        for _ in range(n):
+            r = rng.random()
+            if r < 0.6:
+                cols.append({"k": "Select", "s": coll, "x": "j", "f": atom("j")})
+            elif r < 0.9:
+                cols.append({"k": "Select", "s": coll, "x": "j", "f": {"k": "Select", "s": M(V("j"), "kids"), "x": "k", "f": atom("k")}})
+            else:
+                cols.append({"k": "Count", "s": coll})
+        src, x, form = {"k": "ds"}, "e", "select"
+    shape = rng.choice(["bare", "tuple", "list", "dict", "explicit", "explicit", "explicit-odd", "explicit-odd", "mismatch"]) if n > 1 else rng.choice(["bare", "bare", "tuple", "dict", "explicit", "explicit-odd", "mismatch"])
+    if shape == "bare":
+        cols = cols[:1]
+        body, names = cols[0], ["col1"]
+    elif shape == "dict":
+        ks = [f"k{k}_{rng.choice(['pt', 'eta', 'n'])}" for k in range(len(cols))]
+        body, names = {"k": "dict", "ks": ks, "es": cols}, ks
+    elif shape == "list":
+        body, names = {"k": "list", "es": cols}, [f"col{k}" for k in range(len(cols))]
+    else:
+        body, names = {"k": "tuple", "es": cols}, [f"col{k}" for k in range(len(cols))]
+    q = {"k": "Select", "s": src, "x": x, "f": body}
+    c = cgroup.Case(backend, q, names, form, [qgen.gen_event(rng, backend, {bank: cname}, empty_bias=0.1)])
+    c.family = "declared-types"
+    as_scase(c)
+    if shape.startswith("explicit") or shape == "mismatch":
+        pool = ODD_LABELS if shape == "explicit-odd" or (shape == "mismatch" and rng.random() < 0.5) else ["pt", "eta", "n", "jetPt", "x"]
+        labels = [rng.choice(pool) + str(k) for k in range(len(cols))]
+        if shape == "mismatch":
+            labels = labels + ["extra"] if rng.random() < 0.5 else labels[:-1]
+        tree = rng.choice(ODD_TREES if rng.random() < 0.6 else ["mytree", "t", "trees/nominal", "a b"])
+        c.explicit = (labels, tree, shape == "mismatch")
+    return c
+
+
+_P = Prop(ID, gen, judge, 240, 2400, with_query=False, after=after, nontrivial=nontrivial,
+          how="translate `source` wrapped in the metadata of tools/props/c03.py `metadata(backend)` (tools/qgen.py's synthetic data model plus the DECLARED "
+              "methods and USERFNS), and in ResultTTree(source, labels, tree, 'out.root') when the case has `explicit` = [labels, tree, mismatch], on `backend` "
+              "through apply_ast_transformations + write_cpp_files; read the booking code, the class declaration and the returned descriptor")
 search, replay = _P.search, _P.replay
 
 
@@ -476,4 +730,9 @@ def run(ctx):
         for r in c.rules:
             ctx.count("rule:" + r.split(":")[0])
     _P.stream(ctx, cases, "typing-rules")
+    import random
+
+    rng = random.Random(f"C03 declared types:{ctx.seed}")  # (its own generator: the main stream's draws stay what they are)
+    n = 60 if ctx.tier == "quick" else 600
+    _P.stream(ctx, [gen_declared(rng, i) for i in range(n)], "declared-types")
     _P.run(ctx)
